@@ -302,9 +302,11 @@ def _check_chain(ctx, body, term, kind, anchor, site):
     return not bad and rk == kind
 
 
-def idx_r2(ctx):
+def idx_r2(ctx, only=None, floor=6):
     n = 0
     for (adt, fld), (kind, ctors, why) in sorted(ALIGNED.items()):
+        if only is not None and (adt, fld) not in only:
+            continue
         anchor = "%s.%s" % (mir.short(adt).split("::")[-1], fld)
         # (a) constructors are the reviewed ones
         cs = []
@@ -360,6 +362,9 @@ def idx_r2(ctx):
                     bad.append((mir.short(d), mir.short(nme), t["sp"]))
         ctx.check(anchor, not bad, "no library code inserts into / removes from / reorders an aligned table",
                   sites=[x[2] for x in bad], got=bad, key="frozen")
+    if only is not None and not any(a.endswith("MultiExchangeTxMap") for a, _ in only):
+        ctx.floor("aligned tables with a verified fill chain", n, floor)
+        return
     # MultiExchangeTxMap collect sites
     m = 0
     for d in lib_bodies(ctx):
@@ -375,7 +380,7 @@ def idx_r2(ctx):
                     if _check_chain(ctx, b, term, "Exchange", "MultiExchangeTxMap.0@%s" % mir.short(d), t["sp"]):
                         n += 1
     ctx.floor("collect() sites producing a MultiExchangeTxMap", m, 1)
-    ctx.floor("aligned tables with a verified fill chain", n, 6)
+    ctx.floor("aligned tables with a verified fill chain", n, floor)
 
 
 def idx_r3(ctx):
